@@ -681,6 +681,122 @@ func (g *gen) genRenew() {
 	}
 }
 
+// ---- registry programs
+
+// addUR appends an UpdateRegistry (legacy: the pre-1.5.7 opcode without type byte) for `key` with the given
+// revision and data length; valid=false corrupts the signature.  Layout: tweak, revision, signature, key, data.
+func (c *x3case) addUR(key, rev, dlen uint64, valid, legacy, putOk bool) {
+	tw := c.b.blob(32, "tweak:%d", key)
+	rv := c.b.word(rev)
+	sig := c.b.n
+	c.b.n += 64
+	pk := c.b.blob(48, "pk:%d", key)
+	data := c.b.blob(dlen, "fill:%d:90", dlen)
+	c.b.blobs = append(c.b.blobs, fmt.Sprintf("%d:regsig:%d:%d:%d:1:%d:%d", sig, key, key, rev, dlen, b01(valid)))
+	mn := "UR"
+	if legacy {
+		mn = "UN"
+	}
+	c.prog = append(c.prog, fmt.Sprintf("%s:%d:%d:%d:%d:48:%d:%d:1:1:%d", mn, tw, rv, sig, pk, data, dlen, b01(putOk)))
+}
+
+// addRR appends a ReadRegistry (legacy: the opcode without version byte) of `key`.
+func (c *x3case) addRR(key, version uint64, found, legacy bool) {
+	tw := c.b.blob(32, "tweak:%d", key)
+	pk := c.b.blob(48, "pk:%d", key)
+	if legacy {
+		c.prog = append(c.prog, fmt.Sprintf("RN:%d:48:%d:0:1:%d", pk, tw, b01(found)))
+		return
+	}
+	c.prog = append(c.prog, fmt.Sprintf("RR:%d:48:%d:%d:1:%d", pk, tw, version, b01(found)))
+}
+
+// genRegistry: programs that really execute registry instructions (all four opcodes) — keys never written,
+// written earlier in the same program, overwritten with a higher / the identical / a lower revision, a wrong
+// signature, oversized data — alone and mixed with sector instructions, with failing later instructions, a
+// wrong finalisation and small budgets: the commit AND the rollback path run with registry usage booked.
+func (g *gen) genRegistry() {
+	c := x3case{n: 3, fcid: g.r.Intn(2), budget: "5000000000000000000000000", pay: "acct", fin: "ok"}
+	g.seq++
+	key := g.r.Uint64()%1000000 + g.seq*1000003
+	legacy := func() bool { return g.r.Chance(1, 3) }
+	stored := map[uint64]uint64{} // key -> revision written by this program so far
+	put := func(k, rev, dlen uint64, valid bool) {
+		old, exists := stored[k]
+		ok := valid && dlen <= 113 && (!exists || rev > old)
+		c.addUR(k, rev, dlen, valid, legacy(), ok)
+		if ok {
+			stored[k] = rev
+		}
+	}
+	read := func(k uint64) {
+		_, found := stored[k]
+		c.addRR(k, g.pick(1, 2), found, legacy())
+	}
+	sector := func() { // a sector instruction in front of / behind the registry instructions
+		switch g.r.Intn(4) {
+		case 0:
+			o := c.b.blob(32, "root:%d", g.pick(0, 1, 100))
+			c.prog = append(c.prog, fmt.Sprintf("HS:%d", o))
+		case 1:
+			lo := c.b.word(64)
+			oo := c.b.word(0)
+			ro := c.b.blob(32, "root:%d", g.r.Intn(3))
+			c.prog = append(c.prog, fmt.Sprintf("RS:%d:%d:%d:%d:1", lo, oo, ro, g.r.Intn(2)))
+		case 2:
+			g.seq++
+			o := c.b.blob(sectorSize, "sector:%d", g.seq+g.r.Uint64()%1000000*1000)
+			c.prog = append(c.prog, fmt.Sprintf("AS:%d:%d", o, g.r.Intn(2)))
+			c.fcid = 1
+		default:
+			co := c.b.word(g.pick(0, 1, 3, 4, 9)) // 4, 9: more than the contract holds
+			c.prog = append(c.prog, fmt.Sprintf("DS:%d:%d", co, g.r.Intn(2)))
+			c.fcid = 1
+		}
+	}
+	if g.r.Chance(1, 3) {
+		sector()
+	}
+	switch g.r.Intn(10) {
+	case 0, 1:
+		read(key) // never written: paid, then "not found"
+	case 2:
+		put(key, 1, g.pick(0, 8, 113), true)
+	case 3:
+		put(key, 5, 8, true)
+		put(key, g.pick(5, 3, 0), 8, true) // the identical entry or a lower revision: "invalid registry update"
+	case 4:
+		put(key, 1, 8, true)
+		put(key, g.pick(2, 9), g.pick(8, 16), true) // overwrite
+		if g.r.Chance(1, 2) {
+			read(key)
+		}
+	case 5:
+		put(key, 1, 8, true)
+		read(key)
+	case 6:
+		put(key, 1, 8, false) // wrong signature
+	case 7:
+		put(key, 1, g.pick(114, 200, 4096), true) // oversized data
+	case 8:
+		put(key, 1, 8, true)
+		read(key + 1) // another key, never written
+	default:
+		read(key)
+		put(key, 1, 8, true)
+	}
+	if g.r.Chance(1, 3) {
+		sector()
+	}
+	if g.r.Chance(1, 8) {
+		c.budget = vhlib.Pick(g.r, "1", "2", "1000000000000000000", "1000000000200000000", "2000000000300000000")
+	}
+	if g.r.Chance(1, 6) {
+		c.fin = vhlib.Pick(g.r, "badsig", "samerev", "drop", "lenmore")
+	}
+	g.emitX3(c)
+}
+
 func (g *gen) genV2() {
 	n := int(g.pick(3, 3, 3, 1, 0))
 	un := uint64(n)
@@ -845,18 +961,20 @@ func generate(cfg vhlib.Config) []string {
 	g.emit("regclose reads=0 writes=0")
 	for i := 0; i < cfg.N; i++ {
 		switch x := g.r.Intn(100); {
-		case x < 38:
+		case x < 34:
 			g.genInstr()
-		case x < 49:
+		case x < 44:
 			g.genMulti()
-		case x < 59:
+		case x < 53:
 			g.genValid()
-		case x < 63:
+		case x < 57:
 			g.genMut()
-		case x < 73:
+		case x < 66:
 			g.genR3()
-		case x < 85:
+		case x < 77:
 			g.genRenew()
+		case x < 86:
+			g.genRegistry()
 		default:
 			g.genV2()
 		}
